@@ -590,8 +590,8 @@ def _ranges(xs):
 
 def run(ctx):
     db = ctx.db
-    check_hobby_indices(ctx, db)
-    check_elliptical_radii(ctx, db)
+    ctx.attempt(check_hobby_indices, ctx, db)
+    ctx.attempt(check_elliptical_radii, ctx, db)
     f = db.fn('gdstk::Curve::commands')
     ctx.touch(f)
     n, table = consume.check_commands(ctx, f)
@@ -603,11 +603,11 @@ def run(ctx):
     fp = db.fn('gdstk::FlexPath::commands')
     t = norm(clone.canon(fp.body, fp, ren=clone.Renamer(fp, params_by_name=True)))
     ctx.check('this->spine.commands($items, $count)' in t and 'this->fill_offsets_and_widths(NULL, NULL)' in t, 'R-SHAPE', 'FlexPath::commands/delegates', fp.loc(), 'FlexPath::commands runs the curve interpreter on its spine and then fills widths/offsets')
-    check_last_ctrl(ctx, db)
-    check_clamps(ctx, db)
-    check_samplers(ctx, db)
-    check_dimensions(ctx, db)
-    check_section_algebra(ctx, db)
+    ctx.attempt(check_last_ctrl, ctx, db)
+    ctx.attempt(check_clamps, ctx, db)
+    ctx.attempt(check_samplers, ctx, db)
+    ctx.attempt(check_dimensions, ctx, db)
+    ctx.attempt(check_section_algebra, ctx, db)
     fns = [f for f in db.functions if f.body is not None and f.relfile() in ('src/polygon.cpp', 'src/curve.cpp')]
     n = check_clamp_chains(ctx, fns)
     ctx.require('R-CLAMP.chain clamp statements', n, 20)
